@@ -28,6 +28,11 @@ def expected_models(b, names):
     return out
 
 
+def parvec(par, npar):
+    """the numeric columns of the parameter file of a world with npar columns (1..4), as functions of the spec's two values"""
+    return [par[0], par[1], 3.0 * par[0] + 1.0, par[1] - 7.0][:npar] if npar != 1 else [par[0]]
+
+
 def close3(a, b):
     """agreement at the printed precision (%10.3f / %10.3e)"""
     if np.isnan(a) or np.isnan(b):
@@ -35,7 +40,7 @@ def close3(a, b):
     return abs(a - b) <= 6e-4 * max(abs(a), abs(b)) + 6e-4
 
 
-def check_rows(rows, exp, b, names, what):
+def check_rows(rows, exp, b, names, what, npar=2):
     """rows: list of (model_name, chi, av, sc, [pars...]) in listing order"""
     n = len(rows)
     if not (b['lo'] <= n <= b['hi']):
@@ -52,12 +57,12 @@ def check_rows(rows, exp, b, names, what):
         if not close3(chi, e['chi']) or not close3(av, e['av']) or not close3(sc, e['sc']):
             return '%s row %d (%s): chi2/av/scale %r, the fit of that model is %r' % (what, i + 1, nm, (chi, av, sc), (e['chi'], e['av'], e['sc']))
         if isinstance(pars, dict):
-            want = {'par1': e['par'][0], 'par2': e['par'][1]}
+            want = {'par%d' % (k_ + 1): v_ for k_, v_ in enumerate(parvec(e['par'], npar))}
             want.update({k_: e[k_] for k_ in pars if k_ in ('zeta', 'alpha')})
             if set(pars) != set(want) or any(not close3(pars[k_], want[k_]) for k_ in want):
                 return '%s row %d (%s): columns %r, that model has %r' % (what, i + 1, nm, pars, want)
         else:
-            want = e['par']
+            want = parvec(e['par'], npar)
             if len(pars) != len(want) or any(not close3(p, w) for p, w in zip(pars, want)):
                 return '%s row %d (%s): parameters %r, the parameter file has %r for that model' % (what, i + 1, nm, pars, want)
         if chi < prev - 1e-3 * max(1.0, abs(prev)):
@@ -82,20 +87,21 @@ def replay_chunk(items, hdr, root, seed):
     names = FOUR[:nm]
     worlds = []
     try:
-        for _ in range(2):
+        for wi in range(2):
+            npar = 2 if wi == 0 else [1, 3, 4][seed % 3]              # number of numeric columns of the parameter file
             perm = rng.sample(range(nm), nm)
             w = SessionWorld(root, hdr, table_perm=perm)
             # parameter file: the spec's Par values, padded names, chosen row order
             from astropy.table import Table
             t = Table()
             t['MODEL_NAME'] = np.array([names[i] + ('   ' if k % 2 else '') for k, i in enumerate(perm)], dtype='S30')
-            t['par1'] = np.array([float(hdr['par'][i][0]) for i in perm])
-            t['par2'] = np.array([float(hdr['par'][i][1]) for i in perm])
+            for k_ in range(npar):
+                t['par%d' % (k_ + 1)] = np.array([parvec([float(x) for x in hdr['par'][i]], npar)[k_] for i in perm])
             os.remove(os.path.join(w.pkg, 'parameters.fits'))
             t.write(os.path.join(w.pkg, 'parameters.fits'))
-            worlds.append((w, perm))
+            worlds.append((w, perm, npar))
         for bi, b in items:
-            w, perm = worlds[bi % 2]
+            w, perm, npar = worlds[bi % 2]
             exp = expected_models(b, names)
             unit = hdr['unit']
             csel = conc_sel(b['sel'], unit)
@@ -112,7 +118,7 @@ def replay_chunk(items, hdr, root, seed):
             else:
                 inp = info if form == 'obj' else [info]
             additional = {} if bi % 2 else {'zeta': {n_: 1000.0 + (i + 1) for i, n_ in enumerate(names)}, 'alpha': {n_: 7.0 * (i + 1) for i, n_ in enumerate(names)}}
-            desc = {'behaviour': b, 'table_row_order': [names[i] for i in perm], 'form': form, 'selector': csel, 'additional': bool(additional)}
+            desc = {'behaviour': b, 'table_row_order': [names[i] for i in perm], 'parameter_columns': npar, 'form': form, 'selector': csel, 'additional': bool(additional)}
             bad = None
             try:
                 with fw.quiet():
@@ -129,7 +135,7 @@ def replay_chunk(items, hdr, root, seed):
                         rows.append((tk[1], float(tk[2]), float(tk[3]), float(tk[4]), dict(zip(colnames, [float(x) for x in tk[5:]]))))
                     if not head or head[0] != src.name or int(head[1]) != b['nd'] or int(head[2]) != len(rows):
                         bad = 'write_parameters header %r: expected source %s, n_data %d, n_fits = number of rows listed (%d)' % (head, src.name, b['nd'], len(rows))
-                    bad = bad or check_rows(rows, exp, b, names, 'write_parameters')
+                    bad = bad or check_rows(rows, exp, b, names, 'write_parameters', npar)
                     col.replayed += 1
                     # --- extract_parameters
                     if not bad:
@@ -141,7 +147,7 @@ def replay_chunk(items, hdr, root, seed):
                         for ln in xl:
                             tk = ln.split()
                             rows2.append((tk[3], float(tk[0]), float(tk[1]), float(tk[2]), [float(x) for x in tk[4:]]))
-                        bad = check_rows(rows2, exp, b, names, 'extract_parameters')
+                        bad = check_rows(rows2, exp, b, names, 'extract_parameters', npar)
                         col.replayed += 1
                     # --- write_parameter_ranges
                     if not bad:
@@ -159,10 +165,13 @@ def replay_chunk(items, hdr, root, seed):
                             vals = [float(x) for x in ln[3:]]
                             kept = [names[m - 1] for m in b['ranking'][:n]]
                             getters = {'chi2': lambda e: e['chi'], 'av': lambda e: e['av'], 'scale': lambda e: e['sc'],
-                                       'par1': lambda e: e['par'][0], 'par2': lambda e: e['par'][1], 'zeta': lambda e: e['zeta'], 'alpha': lambda e: e['alpha']}
+                                       'par1': lambda e: e['par'][0], 'par2': lambda e: e['par'][1], 'par3': lambda e: 3.0 * e['par'][0] + 1.0, 'par4': lambda e: e['par'][1] - 7.0, 'zeta': lambda e: e['zeta'], 'alpha': lambda e: e['alpha']}
                             hdr_names = open(p3).read().splitlines()[0].split()      # first header line names the quantities, in column order
                             quantities = [('chi' if q_ == 'chi2' else q_, getters[q_]) for q_ in hdr_names if q_ in getters]
-                            if len(vals) != 3 * len(quantities):
+                            want_q = ['chi2', 'av', 'scale'] + ['par%d' % (k_ + 1) for k_ in range(npar)] + (sorted(additional) if additional else [])
+                            if sorted(q_ for q_ in hdr_names if q_ in getters) != sorted(want_q):
+                                bad = 'write_parameter_ranges: columns %r, expected %r' % (hdr_names, want_q)
+                            elif len(vals) != 3 * len(quantities):
                                 bad = 'write_parameter_ranges: %d numbers, expected %d' % (len(vals), 3 * len(quantities))
                             tie_top = n >= 1 and len(b['ranking']) > 1 and abs(exp[names[b['ranking'][0] - 1]]['chi'] - exp[names[b['ranking'][1] - 1]]['chi']) < 1e-12
                             for qi, (qn, get) in enumerate(quantities):
@@ -188,8 +197,9 @@ def replay_chunk(items, hdr, root, seed):
                         col.replayed += 1
                         for i in range(len(info2.chi2)):
                             nm_ = str(info2.model_name[i]).strip()
-                            if str(ts['MODEL_NAME'][i]).strip() != nm_ or not close3(float(ts['par1'][i]), exp[nm_]['par'][0]) or \
-                               not close3(float(ts['par2'][i]), exp[nm_]['par'][1]) or (additional and not (close3(float(ts['zeta'][i]), exp[nm_]['zeta']) and close3(float(ts['alpha'][i]), exp[nm_]['alpha']))):
+                            pv = parvec(exp[nm_]['par'], npar)
+                            if str(ts['MODEL_NAME'][i]).strip() != nm_ or any(not close3(float(ts['par%d' % (k_ + 1)][i]), pv[k_]) for k_ in range(npar)) or \
+                               (additional and not (close3(float(ts['zeta'][i]), exp[nm_]['zeta']) and close3(float(ts['alpha'][i]), exp[nm_]['alpha']))):
                                 bad = 'filter_table row %d is %r for fit of %s' % (i, tuple(ts[i]), nm_)
                                 break
             except Exception as e:
@@ -198,7 +208,7 @@ def replay_chunk(items, hdr, root, seed):
             if bad:
                 col.violation('C09:%s' % bad.split(':')[0].split(' ')[0], '%s input, selector %r, parameter file rows %r: %s' % (form, csel, desc['table_row_order'], bad), desc)
     finally:
-        for w, _ in worlds:
+        for w, _, _ in worlds:
             w.close()
     return col
 
